@@ -737,7 +737,11 @@ class TensorDiagram:
         result_indices: tuple[list[int], list[int], list[int]] = ([], [], [])
         for i, (node, ind, offset) in enumerate(zip(self._nodes, self._unused_indices, self._node_positions)):
             if node.free_indices > 0:
-                free_ind = list(reversed(range(node.free_indices)))
+                # the collection axes of the node, last one first (they are in front unless the node came out of an indexing
+                # expression that inserted or kept an axis between the tensor indices)
+                free_ind = sorted(
+                    set(range(node.rank)) - node._covariant_indices - node._contravariant_indices, reverse=True
+                )
                 for j, k in enumerate(free_ind[: len(result_indices[0])]):
                     indices[offset + k] = result_indices[0][-j - 1]
                 if node.free_indices > len(result_indices[0]):
